@@ -119,13 +119,13 @@ func (r *Run) RandN(stream string, n int) *rand.Rand {
 	return r.Rand(stream + "#" + strconv.Itoa(n))
 }
 
-func (r *Run) SetRule(s string)          { r.mu.Lock(); r.rule = s; r.mu.Unlock() }
-func (r *Run) Assume(s string)           { r.mu.Lock(); r.assumptions = append(r.assumptions, s); r.mu.Unlock() }
-func (r *Run) SetExhaustive(b bool)      { r.mu.Lock(); r.exhaustive = &b; r.mu.Unlock() }
+func (r *Run) SetRule(s string)              { r.mu.Lock(); r.rule = s; r.mu.Unlock() }
+func (r *Run) Assume(s string)               { r.mu.Lock(); r.assumptions = append(r.assumptions, s); r.mu.Unlock() }
+func (r *Run) SetExhaustive(b bool)          { r.mu.Lock(); r.exhaustive = &b; r.mu.Unlock() }
 func (r *Run) Extra(k string, v interface{}) { r.mu.Lock(); r.extra[k] = v; r.mu.Unlock() }
 
 // Eval counts one executed case.
-func (r *Run) Eval() { r.mu.Lock(); r.evals++; r.mu.Unlock() }
+func (r *Run) Eval()       { r.mu.Lock(); r.evals++; r.mu.Unlock() }
 func (r *Run) Evals(n int) { r.mu.Lock(); r.evals += int64(n); r.mu.Unlock() }
 
 // Count adds to a named counter that is written into the evidence.
